@@ -116,8 +116,10 @@ class GenoFrom:
                         dom_vals[dep] &= ok_vals
                         used[dep].append(f.loc(sb))
                     else:
-                        # direct switch on the allele value
-                        dd, info = self.depends(s["root"])
+                        # direct switch on the allele value (a local copy, or the payload place `(_t.i as Some).0` itself)
+                        dd, _ = self.depends(st["discr"])
+                        # between the position() result and the switched value: copies / payload projections only
+                        _, info = f.slice_locals(st["discr"], stop=lambda l: l in self.pos_dest)
                         if len(dd) == 1 and not info["binops"] and not [c for c in info["calls"] if not callee_is(c[1]["callee"], ALLELE_POSITION)]:
                             dep = next(iter(dd))
                             arm_vals = {a[0] for a in st["arms"] if a[1] == tgt}
@@ -125,8 +127,10 @@ class GenoFrom:
                                 ok_vals = set(range(8)) - {a[0] for a in st["arms"]}
                             else:
                                 ok_vals = {v for v in arm_vals if v < 8}
-                            # only meaningful if the switched value is the usize payload, not the Option discriminant
-                            if "usize" in f.local_ty(s["root"]):
+                            # only meaningful if the switched value is the usize payload, not a bool / discriminant
+                            dp = op_place(st["discr"])
+                            is_payload = ("usize" in f.local_ty(s["root"])) if (dp is None or not dp[1]) else any(e[0] == "downcast" and e[1] == "Some" for e in dp[1])
+                            if is_payload:
                                 dom_vals[dep] &= ok_vals
                                 used[dep].append(f.loc(sb))
         return dom_vals, used
